@@ -26,7 +26,9 @@ import (
 )
 
 var (
-	// DummyPostingList is an empty list.
+	// DummyPostingList is an empty list. It is shared and mutable: use it for comparisons only and
+	// never hand it out as a query result, because callers merge results in place (Union/Intersect/
+	// Difference) and would change what every later user of this variable sees.
 	DummyPostingList = NewPostingList()
 
 	errIntersectRoaringOnly  = errors.New("Intersect only supported between roaringDocId sets")
